@@ -30,7 +30,7 @@ from dsim import refmodel as R
 ID = 'C09'
 LEVEL = 'exploration'
 CLASSES = [('calls', 8), ('write_error', 2)]
-TIERS = {'quick': {'runs': 6000}}
+TIERS = {'quick': {}}
 RULE = ('seeded call sequences (length up to 40) over the five writer calls, '
         '~15% out of order, ~20% with an invalid-argument variant (38 '
         'variants), optional injected write errors; sweep tasks: EVERY call '
